@@ -184,6 +184,18 @@ func (c *Ctx) Begin(cs any) {
 	}
 }
 
+// Pending leaves a trace (current.json) of a case that is ABOUT to be executed and will only be registered with
+// Begin afterwards (harnesses that learn part of the case, e.g. the schedule, from the run itself). If the code
+// under test kills the process during the run (fatal "unlock of unlocked mutex", all goroutines asleep), bin/check
+// reports this case as the failing input. It counts nothing.
+func (c *Ctx) Pending(cs any) {
+	if b, err := json.Marshal(cs); err == nil {
+		os.WriteFile(filepath.Join(c.OutDir, "current.json"), b, 0o644)
+		c.deadline.Store(time.Now().Add(c.CaseTimeout).UnixNano())
+		c.cur = b
+	}
+}
+
 // Emit adds the current case, as a Coq term of type [case], to the model shards.
 func (c *Ctx) Emit(coq string) {
 	if c.NoModel {
